@@ -19,6 +19,12 @@ inductive RInsn where
   | ldcCls (s : JStr)
   | ldcFloat (bits : Nat)
   | ldcDouble (bits : Nat)
+  /-- `getstatic` … `putfield`, `invoke*`: opcode, pool reference kind (9/10/11), class, name, descriptor -/
+  | ref (op kind : Nat) (cls name desc : JStr)
+  | invokeinterface (cls name desc : JStr)
+  /-- `new`, `anewarray`, `checkcast`, `instanceof` -/
+  | clsOp (op : Nat) (cls : JStr)
+  | multianewarray (cls : JStr) (dims : Nat)
 
 def condOf : Nat → Option Cond
   | 0 => some .eq | 1 => some .ne | 2 => some .lt | 3 => some .ge | 4 => some .gt | 5 => some .le
@@ -66,6 +72,22 @@ def parseInsn1 : Sexp → Option RInsn
   | list [atom "ts", d, lo, hi, tb] => do
     pure (.plain (.tableswitch (← toNat? d) (← sInt 32 lo) (← sInt 32 hi) (← toListOf? toNat? tb)))
   | list [atom "ls", d, ps] => do pure (.plain (.lookupswitch (← toNat? d) (← toListOf? parsePair ps)))
+  | list [atom "fld", op, c, n, d] => do
+    let op ← toNat? op
+    if 178 ≤ op ∧ op ≤ 181 then pure (.ref op 9 (← toJStr? c) (← toJStr? n) (← toJStr? d)) else none
+  | list [atom "inv", op, c, n, d, i] => do
+    let op ← toNat? op
+    let i ← toBool? i
+    if op = 182 ∧ !i ∨ op = 183 ∨ op = 184 then
+      pure (.ref op (if i then 11 else 10) (← toJStr? c) (← toJStr? n) (← toJStr? d)) else none
+  | list [atom "invi", c, n, d] => do pure (.invokeinterface (← toJStr? c) (← toJStr? n) (← toJStr? d))
+  | list [atom "cls", op, c] => do
+    let op ← toNat? op
+    if op = 187 ∨ op = 189 ∨ op = 192 ∨ op = 193 then pure (.clsOp op (← toJStr? c)) else none
+  | list [atom "newarray", t] => do
+    let t ← toNat? t
+    if 4 ≤ t ∧ t ≤ 11 then pure (.plain (.newarray t)) else none
+  | list [atom "mana", c, d] => do pure (.multianewarray (← toJStr? c) (← uNat 8 d))
   | _ => none
 
 def parseInsns (xs : List Sexp) : Option (Array RInsn) :=
@@ -126,6 +148,10 @@ def poolInsns (p : PoolWrite.Pool) (xs : Array RInsn) : Option (List Insn × Poo
     | .ldcCls s => do let (i, p) ← PoolWrite.putClass p s; pure (acc.push (.ldc i false), p)
     | .ldcFloat b => do let (i, p) ← PoolWrite.put p (.float b); pure (acc.push (.ldc i false), p)
     | .ldcDouble b => do let (i, p) ← PoolWrite.put p (.double b); pure (acc.push (.ldc i true), p)
+    | .ref op kind c n d => do let (i, p) ← PoolWrite.putRef p kind c n d; pure (acc.push (.cp op i), p)
+    | .invokeinterface c n d => do let (i, p) ← PoolWrite.putRef p 11 c n d; pure (acc.push (.invokeinterface i d), p)
+    | .clsOp op c => do let (i, p) ← PoolWrite.putClass p c; pure (acc.push (.cp op i), p)
+    | .multianewarray c d => do let (i, p) ← PoolWrite.putClass p c; pure (acc.push (.multianewarray i d), p)
   pure (acc.toList, p)
 
 /-- instructions with `ldc`s replaced by fixed indices (for the ops that do not care about the pool) -/
@@ -134,6 +160,10 @@ def plainInsns (xs : Array RInsn) : List Insn :=
     | .plain i => i
     | .ldcLong _ => Insn.ldc 300 true
     | .ldcDouble _ => Insn.ldc 300 true
+    | .ref op _ _ _ _ => Insn.cp op 9
+    | .invokeinterface _ _ d => Insn.invokeinterface 9 d
+    | .clsOp op _ => Insn.cp op 9
+    | .multianewarray _ d => Insn.multianewarray 9 d
     | _ => Insn.ldc 7 false).toList
 
 def u32b := CodeWrite.u32b
@@ -279,6 +309,22 @@ def codeWriteAns (r : Req) : Ans :=
 
 open CodeDecode CodeDenote
 
+def clsAt (p : PoolWrite.Pool) (c : JStr) (i : Nat) : Bool :=
+  match p.get i with | some (.cls u) => p.get u == some (.utf8 c) | _ => false
+
+def natAt (p : PoolWrite.Pool) (n d : JStr) (i : Nat) : Bool :=
+  match p.get i with
+  | some (.nameAndType a b) => p.get a == some (.utf8 n) && p.get b == some (.utf8 d)
+  | _ => false
+
+/-- index `i` holds a reference of the requested kind to `c.n:d` -/
+def refAt (p : PoolWrite.Pool) (kind : Nat) (c n d : JStr) (i : Nat) : Bool :=
+  match p.get i with
+  | some (.fieldRef a b) => kind == 9 && clsAt p c a && natAt p n d b
+  | some (.methodRef a b) => kind == 10 && clsAt p c a && natAt p n d b
+  | some (.ifaceMethodRef a b) => kind == 11 && clsAt p c a && natAt p n d b
+  | _ => false
+
 /-- the constant the request asks for sits at the index the `ldc` uses -/
 def constAt (p : PoolWrite.Pool) : RInsn → Insn → Bool
   | .plain _, _ => true
@@ -288,6 +334,10 @@ def constAt (p : PoolWrite.Pool) : RInsn → Insn → Bool
   | .ldcDouble b, .ldc i true => p.get i == some (.double b)
   | .ldcStr s, .ldc i false => match p.get i with | some (.str u) => p.get u == some (.utf8 s) | _ => false
   | .ldcCls s, .ldc i false => match p.get i with | some (.cls u) => p.get u == some (.utf8 s) | _ => false
+  | .ref _ kind c n d, .cp _ i => refAt p kind c n d i
+  | .invokeinterface c n d, .invokeinterface i _ => refAt p 11 c n d i
+  | .clsOp _ c, .cp _ i => clsAt p c i
+  | .multianewarray c _, .multianewarray i _ => clsAt p c i
   | _, _ => false
 
 def allConstAt (p : PoolWrite.Pool) : List RInsn → List Insn → Bool
@@ -333,6 +383,7 @@ def wellformedDomain (r : Req) : Bool :=
   let n := r.insns.size
   r.insns.all (fun x => match x with
     | .plain i => (insnTargets i).all (· < n) && (match i with | .lookupswitch _ ps => strictKeys ps | _ => true)
+    | .multianewarray _ d => decide (1 ≤ d)
     | _ => true) &&
   r.excs.all (fun e => e.start < n && e.handler < n) &&
   (match r.lines with | none => true | some ls => ls.all (·.1 < n)) &&
@@ -346,6 +397,17 @@ def dTargets : DInsn → List Int
 
 def isUtf8 (p : PoolWrite.Pool) (i : Nat) : Bool := match p.get i with | some (.utf8 _) => true | _ => false
 def isClass (p : PoolWrite.Pool) (i : Nat) : Bool := match p.get i with | some (.cls n) => isUtf8 p n | _ => false
+
+def isNat (p : PoolWrite.Pool) (i : Nat) : Bool := match p.get i with | some (.nameAndType _ _) => true | _ => false
+
+/-- the pool entry an instruction with opcode `op` may refer to -/
+def cpKindOk (p : PoolWrite.Pool) (op i : Nat) : Bool :=
+  match p.get i with
+  | some (.fieldRef _ _) => 178 ≤ op && op ≤ 181
+  | some (.methodRef _ _) => 182 ≤ op && op ≤ 184
+  | some (.ifaceMethodRef _ _) => op == 183 || op == 184
+  | some (.cls _) => op == 187 || op == 189 || op == 192 || op == 193
+  | _ => false
 
 def slotsSum (p : PoolWrite.Pool) : Nat := (p.entries.map (fun e => PoolWrite.slots e.1)).foldl (· + ·) 0
 
@@ -375,7 +437,12 @@ def oracleWellformed (r : Req) : Ans :=
     if n = 0 ∨ n > 65535 then fail "code-length" else
     if p.count ≠ 1 + slotsSum p then fail "pool-count" else
     if !(p.entries.all fun e => match e.1 with
-        | .cls u => isUtf8 p u | .str u => isUtf8 p u | _ => true) then fail "pool-reference" else
+        | .cls u => isUtf8 p u | .str u => isUtf8 p u
+        | .nameAndType a b => isUtf8 p a && isUtf8 p b
+        | .fieldRef a b => isClass p a && isNat p b
+        | .methodRef a b => isClass p a && isNat p b
+        | .ifaceMethodRef a b => isClass p a && isNat p b
+        | _ => true) then fail "pool-reference" else
     match decode o.res.code with
     | none => fail "undecodable"
     | some ds =>
@@ -388,6 +455,10 @@ def oracleWellformed (r : Req) : Ans :=
           | .ldc i => (match p.get i with | some (.int _) => true | some (.float _) => true | some (.str _) => true | some (.cls _) => true | _ => false)
           | .ldc2 i => (match p.get i with | some (.long _) => true | some (.double _) => true | _ => false)
           | .lookupswitch _ ps => strictKeys (ps.map fun kp => (kp.1, 0))
+          | .cp op i => cpKindOk p op i
+          | .invokeinterface i c => (match p.get i with | some (.ifaceMethodRef _ _) => true | _ => false) && decide (1 ≤ c)
+          | .multianewarray i d => isClass p i && decide (1 ≤ d)
+          | .newarray t => decide (4 ≤ t) && decide (t ≤ 11)
           | _ => true) then fail "ldc-kind" else
       if !(o.excRows.all fun row => match row with
           | [a, b, c, d] => at_ a && (at_ b || b == n) && at_ c && (d == 0 || isClass p d)
@@ -416,7 +487,9 @@ def poolPut (xs : Array RInsn) : Option (List Nat × Nat) := do
   let (_, p) ← PoolWrite.putUtf8 p (jstr "Code")
   pure (is.filterMap (fun i => match i with | .ldc idx _ => some idx | _ => none), p.count)
 
-def onlyLdc (xs : Array RInsn) : Bool := xs.all fun x => match x with | .plain _ => false | _ => true
+def onlyLdc (xs : Array RInsn) : Bool := xs.all fun x => match x with
+  | .ldcInt _ => true | .ldcLong _ => true | .ldcStr _ => true | .ldcCls _ => true | .ldcFloat _ => true
+  | .ldcDouble _ => true | _ => false
 
 end C02
 
